@@ -71,6 +71,121 @@ theorem C19_complete (hdr recs : List (List UInt8)) (hh : Frames hdr) (hr : Fram
   rw [readHeader_all hdr hh]
   exact readRecs_all recs hr _ (by omega)
 
+/-- the bytes a reader object iterates over after its constructor consumed the header of the file cut at `t` -/
+theorem C19_reader_position (hdr recs : List (List UInt8)) (hh : Frames hdr) (t : Nat)
+    (ht : hdr.flatten.length ≤ t) :
+    readHeader hdr.length ((hdr.flatten ++ recs.flatten).take t)
+      = some (recs.flatten.take (t - hdr.flatten.length)) := by
+  rw [List.take_append, List.take_of_length_le ht]
+  exact readHeader_all hdr hh _
+
+/-- **C19 (reader life-cycle).** One reader object of the file cut at ANY offset `t`, driven through ANY
+    sequence of passes (each iterated to its end — `EOFError` or an error — or abandoned after any number
+    of records, the next pass continuing where the previous one stopped): everything it yields over all
+    passes together is exactly `[b₁…b_j]`, a prefix of the written records, all of them lying completely
+    before the cut.  (When the cut is inside the header the constructor raises and there is no reader.) -/
+theorem C19_lifecycle (hdr recs : List (List UInt8)) (hh : Frames hdr) (hr : Frames recs)
+    (t : Nat) (ops : List (Option Nat)) (r : List UInt8)
+    (hopen : readHeader hdr.length ((hdr.flatten ++ recs.flatten).take t) = some r) :
+    ∃ j, j ≤ recs.length ∧ allYielded (readPasses ops r) = recs.take j ∧
+      (hdr.flatten ++ (recs.take j).flatten).length ≤ t := by
+  by_cases h1 : t < hdr.flatten.length
+  · rw [List.take_append_of_le_length (by omega), readHeader_cut hdr hh t h1] at hopen
+    cases hopen
+  · rw [C19_reader_position hdr recs hh t (by omega)] at hopen
+    cases hopen
+    obtain ⟨j, hj, hy, hle⟩ := readPasses_stream ops recs hr (t - hdr.flatten.length)
+    exact ⟨j, hj, hy, by rw [List.length_append]; omega⟩
+
+/-- **C19 (a single full pass is one of the life-cycles).** `readFile` yields what the one-pass life-cycle
+    `[none]` yields. -/
+theorem C19_single_pass (nh : Nat) (b r : List UInt8) (h : readHeader nh b = some r) :
+    (readFile nh b).recs = allYielded (readPasses [none] r) := by
+  simp only [readFile, h, readPasses, allYielded, List.map_cons, List.map_nil, List.flatten_cons,
+    List.flatten_nil, List.append_nil]
+  exact readRecs_eq_readPass _ _
+
+/-- what a full read of the file cut at `t` yields: the `j` records that lie completely before the cut,
+    and `j` is the largest such number -/
+theorem C19_count (hdr recs : List (List UInt8)) (hh : Frames hdr) (hr : Frames recs) (t : Nat) :
+    ∃ j, j ≤ recs.length ∧ (readFile hdr.length ((hdr.flatten ++ recs.flatten).take t)).recs = recs.take j ∧
+      (t < hdr.flatten.length → j = 0) ∧
+      (hdr.flatten.length ≤ t → (hdr.flatten ++ (recs.take j).flatten).length ≤ t ∧
+        (j < recs.length → t < (hdr.flatten ++ (recs.take (j + 1)).flatten).length)) := by
+  by_cases h1 : t < hdr.flatten.length
+  · refine ⟨0, by simp, ?_, fun _ => rfl, fun h => by omega⟩
+    rw [List.take_append_of_le_length (by omega)]
+    simp [readFile, readHeader_cut hdr hh t h1]
+  · have hp := C19_reader_position hdr recs hh t (by omega)
+    obtain ⟨j, s', hj, hrec, _, hle, hmax⟩ := readPass_stream recs hr
+      ((recs.flatten.take (t - hdr.flatten.length)).length + 1) none (t - hdr.flatten.length) (by omega)
+    refine ⟨j, hj, ?_, fun h => by omega, fun _ => ⟨by rw [List.length_append]; omega, fun hj1 => ?_⟩⟩
+    · simp only [readFile, hp]
+      rw [readRecs_eq_readPass]; exact hrec
+    · have := hmax rfl hj1
+      rw [List.length_append]; omega
+
+/-- **C19 (monotone in the offset).** A longer prefix of the file never yields fewer records and yields the
+    same first records: for `t ≤ t'` the records read from the file cut at `t` are a prefix of those read
+    from the file cut at `t'`. -/
+theorem C19_monotone (hdr recs : List (List UInt8)) (hh : Frames hdr) (hr : Frames recs)
+    (t t' : Nat) (htt : t ≤ t') :
+    (readFile hdr.length ((hdr.flatten ++ recs.flatten).take t)).recs <+:
+      (readFile hdr.length ((hdr.flatten ++ recs.flatten).take t')).recs := by
+  obtain ⟨j, hj, hrec, h0, hb⟩ := C19_count hdr recs hh hr t
+  obtain ⟨j', hj', hrec', h0', hb'⟩ := C19_count hdr recs hh hr t'
+  rw [hrec, hrec']
+  have hjj : j ≤ j' := by
+    by_cases h1 : t < hdr.flatten.length
+    · rw [h0 h1]; omega
+    · obtain ⟨hlo, _⟩ := hb (by omega)
+      obtain ⟨_, hhi'⟩ := hb' (by omega)
+      refine Nat.le_of_not_lt (fun hc => ?_)
+      have hlt : j' < recs.length := by omega
+      have h2 := hhi' hlt
+      have h3 := take_flatten_length_mono recs (show j' + 1 ≤ j by omega)
+      rw [List.length_append] at hlo h2
+      omega
+  have : recs.take j = (recs.take j').take j := by rw [List.take_take, Nat.min_eq_left hjj]
+  rw [this]
+  exact List.take_prefix _ _
+
+/-- **C19 (liveness: a cut inside record `k`).** The file cut `off` bytes into record `k` (`off` smaller
+    than the record's length; `off = 0` is a cut exactly at the record boundary) is the header, records
+    `0..k-1` and the first `off` bytes of record `k`; reading it yields EXACTLY records `0..k-1`, and the
+    pass ends cleanly (`EOFError`) when those `off` bytes end at an opcode boundary and with an error when
+    they end inside an argument — one of the two always holds. -/
+theorem C19_cut_inside (hdr recs : List (List UInt8)) (hh : Frames hdr) (hr : Frames recs)
+    (k : Nat) (hk : k < recs.length) (off : Nat) (hoff : off < recs[k].length) :
+    (hdr.flatten ++ recs.flatten).take (hdr.flatten.length + (recs.take k).flatten.length + off)
+        = hdr.flatten ++ ((recs.take k).flatten ++ recs[k].take off) ∧
+    (scanOne (recs[k].take off) = .eofAtOpcode ∨ scanOne (recs[k].take off) = .truncatedArg) ∧
+    readFile hdr.length (hdr.flatten ++ ((recs.take k).flatten ++ recs[k].take off))
+      = ⟨if scanOne (recs[k].take off) = .eofAtOpcode then .cleanEnd else .iterError, recs.take k⟩ ∧
+    (off = 0 → scanOne (recs[k].take off) = .eofAtOpcode) := by
+  have hbk : scanOne recs[k] = .done [] := hr _ (List.getElem_mem hk)
+  have hsplit : recs = recs.take k ++ recs[k] :: recs.drop (k + 1) := by
+    rw [List.getElem_cons_drop hk, List.take_append_drop]
+  have hcase := scanOne_take recs[k] off hbk hoff
+  refine ⟨?_, hcase, ?_, fun h0 => by subst h0; rfl⟩
+  · have hfl : recs.flatten = (recs.take k).flatten ++ (recs[k] ++ (recs.drop (k + 1)).flatten) := by
+      rw [← List.flatten_cons, ← List.flatten_append, ← hsplit]
+    rw [hfl]
+    rw [Nat.add_assoc, List.take_append, List.take_of_length_le (by omega), Nat.add_sub_cancel_left]
+    rw [List.take_append, List.take_of_length_le (by omega), Nat.add_sub_cancel_left]
+    rw [List.take_append_of_le_length (by omega)]
+  · unfold readFile
+    rw [readHeader_all hdr hh]
+    simp only
+    have hfl : (recs.take k).length < ((recs.take k).flatten ++ recs[k].take off).length + 1 := by
+      have := frames_length_le (recs.take k) (fun c hc => hr c (List.mem_of_mem_take hc))
+      rw [List.length_append]; omega
+    rw [readRecs_append (recs.take k) (fun c hc => hr c (List.mem_of_mem_take hc)) _ _ hfl]
+    obtain ⟨g, hg⟩ := Nat.exists_eq_add_of_lt hfl
+    have hg' : ((recs.take k).flatten ++ recs[k].take off).length + 1 - (recs.take k).length = g + 1 := by omega
+    rw [hg']
+    rcases hcase with e | e <;> simp [readRecs, e]
+
 /-! ### Non-vacuity: real protocol-2 pickles (`pickle.dumps(obj, 2)` of CPython 3.12) -/
 
 /-- `pickle.dumps('models_dir', 2)` -/
@@ -108,5 +223,29 @@ example :
     readFile 3 (file.take (87 + 78 + 29)) = ⟨.cleanEnd, [exR1]⟩ ∧
     readFile 3 (file.take (87 + 78 + 45)) = ⟨.iterError, [exR1]⟩ ∧
     readFile 3 file = ⟨.cleanEnd, [exR1, exR2]⟩ := by decide +kernel
+
+/-- life-cycles on the real file: peek one record, then iterate twice (cut inside record 2: the three passes
+    yield `[exR1]`, `[]`, `[]`); peek, then a full pass, then another on the complete file; a pass over a cut that
+    ends in an error followed by another pass -/
+example :
+    let file := [exH1, exH2, exH3].flatten ++ [exR1, exR2].flatten
+    readHeader 3 (file.take (87 + 78 + 29)) = some (([exR1, exR2].flatten).take (78 + 29)) ∧
+    (readPasses [some 1, none, none] (([exR1, exR2].flatten).take (78 + 29))).map (fun o => (o.recs, o.ending))
+      = [([exR1], .stopped), ([], .cleanEnd), ([], .cleanEnd)] ∧
+    (readPasses [some 1, none, none] [exR1, exR2].flatten).map (fun o => (o.recs, o.ending))
+      = [([exR1], .stopped), ([exR2], .cleanEnd), ([], .cleanEnd)] ∧
+    (readPasses [none, none] (([exR1, exR2].flatten).take (78 + 45))).map (fun o => (o.recs, o.ending))
+      = [([exR1], .error), ([], .cleanEnd)] ∧
+    allYielded (readPasses [some 0, some 1, some 5, none] [exR1, exR2].flatten) = [exR1, exR2] := by
+  decide +kernel
+
+/-- monotone and cut-inside on the real file: record counts 0, 0, 1, 1, 2 at increasing offsets; the cut 29
+    bytes into record 2 ends cleanly, the cut 45 bytes into it ends with an error -/
+example :
+    let file := [exH1, exH2, exH3].flatten ++ [exR1, exR2].flatten
+    ([50, 87, 87 + 78, 87 + 78 + 45, 87 + 78 + 54].map fun t => (readFile 3 (file.take t)).recs.length)
+      = [0, 0, 1, 1, 2] ∧
+    scanOne (exR2.take 29) = .eofAtOpcode ∧ scanOne (exR2.take 45) = .truncatedArg ∧
+    [exR1, exR2][1].length = 54 := by decide +kernel
 
 end SF
